@@ -4,6 +4,7 @@ CONSTANTS
  MaxCrash = 1
  MarkerMode = "ifbad"
  MarkerWindow = TRUE
+ MaxFault = 0
 INIT Init
 NEXT Next
 INVARIANTS TypeOK NoStuck CrashStateOK ReturnOK RetryOK FollowOK
